@@ -215,29 +215,44 @@ Proof.
 Qed.
 
 (* ---- the cache seen from C14 ---------------------------------------------------------------------- *)
-(* C08-F2: {x:[i0], y:[i1]} and {x:[i0, i1]} have one key *)
+(* the former C08-F2: {x:[i0], y:[i1]} and {x:[i0, i1]} have one key (trie path), two groupings *)
 Definition F2_i0 : nindex := NI 0 "a" [mp "only" "1" [] [] []; mp "common" "1" [] [] []].
 Definition F2_i1 : nindex := NI 1 "b" [mp "common" "1" [] [] []].
 Definition F2_multi : arch_map := [("x", [F2_i0]); ("y", [F2_i1])].
 Definition F2_single : arch_map := [("x", [F2_i0; F2_i1])].
 
-Lemma cache_other_grouping_refuted_lemma :
-  exists hist aa,
-    (exists aa', In aa' hist /\ dq_cache_key aa' = dq_cache_key aa /\ ~ Permutation aa' aa) /\
-    exists o, ~ (In o (snd (dq_cache_get (run_calls hist) aa)) <-> In o (dq_objs aa)).
+(* since fix 3541d7b each is handed its own difference, in both orders and alternating *)
+Example cache_own_grouping_values :
+  dq_cache_key F2_multi = [0; 1] /\ dq_cache_key F2_single = [0; 1] /\
+  same_grouping (grouping_of F2_multi) (grouping_of F2_single) = false /\
+  dq_objs F2_multi = [(0, 0)] /\ dq_objs F2_single = [] /\
+  snd (dq_cache_get (run_calls [F2_multi]) F2_single) = [] /\
+  snd (dq_cache_get (run_calls [F2_single]) F2_multi) = [(0, 0)] /\
+  snd (dq_cache_get (run_calls [F2_multi; F2_single]) F2_multi) = [(0, 0)] /\
+  (* the same map listed in another order finds the entry *)
+  List.length (run_calls [F2_multi; [("y", [F2_i1]); ("x", [F2_i0])]]) = 1.
+Proof. vm_compute. repeat split; reflexivity. Qed.
+
+Lemma F2_hypotheses : go_map F2_single /\ Forall go_map [F2_multi] /\ coherent [F2_single; F2_multi].
 Proof.
-  exists [F2_multi], F2_single. split.
-  - exists F2_multi. split; [left; reflexivity|]. split; [vm_compute; reflexivity|].
-    intro P. apply Permutation_length in P. discriminate.
-  - exists (0, 0). vm_compute. intros [H _]. apply H. left. reflexivity.
+  split; [repeat constructor; simpl; tauto|]. split; [repeat constructor; simpl; intuition discriminate|].
+  intros x y Hx Hy E. vm_compute in Hx, Hy.
+  destruct Hx as [<-|[<-|[<-|[<-|[]]]]], Hy as [<-|[<-|[<-|[<-|[]]]]]; try reflexivity; discriminate.
 Qed.
 
-Example cache_other_grouping_values :
-  dq_cache_key F2_multi = [0; 1] /\ dq_cache_key F2_single = [0; 1] /\
-  dq_objs F2_multi = [(0, 0)] /\ dq_objs F2_single = [] /\
-  snd (dq_cache_get (run_calls [F2_multi]) F2_single) = [(0, 0)] /\
-  snd (dq_cache_get (run_calls [F2_single]) F2_multi) = [].
-Proof. vm_compute. repeat split; reflexivity. Qed.
+(* NON-VACUITY of "one entry per grouping": with the lookup by the key alone (the code
+   before the fix: finding C08-F2) the statement of cache_own_grouping is false *)
+Definition run_calls_by_key (calls : list arch_map) : dq_cache :=
+  fold_left (fun c aa => fst (dq_cache_get_by_key c aa)) calls [].
+
+Lemma cache_keyed_by_concatenation_refuted :
+  exists hist aa,
+    go_map aa /\ Forall go_map hist /\ coherent (aa :: hist) /\
+    exists o, ~ (In o (snd (dq_cache_get_by_key (run_calls_by_key hist) aa)) <-> In o (dq_objs aa)).
+Proof.
+  exists [F2_multi], F2_single. destruct F2_hypotheses as [A [B C]]. split; [exact A|]. split; [exact B|]. split; [exact C|].
+  exists (0, 0). vm_compute. intros [H _]. apply H. left. reflexivity.
+Qed.
 
 (* ---- what the hypotheses exclude -------------------------------------------------------------------- *)
 (* the resolver's OWN objects must be in the map (fix f441d90): if the own
